@@ -1,12 +1,14 @@
 SPECIFICATION Spec
 CONSTANTS
-  Families = {"single", "pair", "triple", "big", "rand"}
+  Families = {"single", "resid", "pair", "triple", "big", "rand"}
   BufSizes = {256, 512, 4096}
   CompCfgs <- AllLevels
   XBufSizes = {1, 16, 1000, 65536}
   XCompCfgs <- QuickComp
   MultiBufSizes = {256, 4096}
   MultiCompCfgs <- ThoroughBig
+  ResidBufSizes = {1, 2, 3, 4, 5, 6, 7, 8, 9, 121, 122, 123, 124, 125, 126, 127, 128, 129, 130, 131, 132, 133, 134, 135, 136, 1001, 4095, 4097}
+  ResidCompCfgs <- QuickComp
   BigSizes = {1048577, 3500000}
   RandSizes = {257, 541, 65536, 1048576}
   RandCalls = {3, 17, 300}
